@@ -14,25 +14,42 @@ macro_rules! one {
     ($t:ident, $s:expr) => {{
         let s: String = $s;
         let json = serde_json::to_string(&s).unwrap();
+        // three deserialisation paths: borrowed text (visit_borrowed_str / visit_str), an owned
+        // serde_json::Value (visit_string) and a reader (transient visit_str)
         let de: Result<$t, _> = serde_json::from_str(&json);
+        let dev: Result<$t, _> = serde_json::from_value(serde_json::Value::String(s.clone()));
+        let der: Result<$t, _> = serde_json::from_reader(json.as_bytes());
         match $t::new(s.clone()) {
-            Err(_) => format!("invalid de={}", if de.is_ok() { "ok" } else { "err" }),
+            Err(_) => format!(
+                "invalid de={} dev={} der={}",
+                if de.is_ok() { "ok" } else { "err" },
+                if dev.is_ok() { "ok" } else { "err" },
+                if der.is_ok() { "ok" } else { "err" }
+            ),
             Ok(v) => {
                 let disp = format!("{}", v);
                 let deref: &String = &v;
                 let ser: String = serde_json::from_str(&serde_json::to_string(&v).unwrap()).unwrap();
-                let de = match de {
-                    Ok(v2) => format!("ok,{},{}", tok_bytes(v2.url().as_str().as_bytes()), (v2 == v) as u8),
+                let show = |de: Result<$t, serde_json::Error>| match de {
+                    Ok(v2) => format!(
+                        "ok,{},{},{}",
+                        tok_bytes(v2.url().as_str().as_bytes()),
+                        tok_bytes(v2.as_str().as_bytes()),
+                        (v2 == v) as u8
+                    ),
                     Err(_) => "err".to_string(),
                 };
+                let (de, dev, der) = (show(de), show(dev), show(der));
                 let f = $t::from_url(v.url().clone());
                 format!(
-                    "ok {} {} {} {} de={} fromurl={},{}",
+                    "ok {} {} {} {} de={} dev={} der={} fromurl={},{}",
                     tok_bytes(disp.as_bytes()),
                     tok_bytes(deref.as_bytes()),
                     tok_bytes(ser.as_bytes()),
                     tok_bytes(v.url().as_str().as_bytes()),
                     de,
+                    dev,
+                    der,
                     tok_bytes(f.as_str().as_bytes()),
                     tok_bytes(f.url().as_str().as_bytes())
                 )
